@@ -99,6 +99,30 @@ CLAIMED["C16"] = ("effect extraction (E6) of the DHCPv6 builders and relay (de)c
          "Decides: relay encapsulation fields and hop count rule, decapsulation loops, the relay-reply rebuild (parallel collections, one index from last to first, argument order, echoed options, innermost reply), type/option guards and transaction-id provenance of the advertise/request/reply builders. "
          "Does not decide value equality after a wire trip beyond the schema rows; hence 'other'.", E6NOTE, "§5 C16")
 
+
+# second-round clauses (DESIGN §15): appended to the level text of the properties that gained them
+ADDENDA = {
+ "C01": " Also: every key of the option map reaches the collecting append of the key sorter (only 82/255 bypass it).",
+ "C02": " Also: the numeric value of every wire-enum constant (option codes, message types, DUID types, status codes) equals the IANA-assigned number in spec/constants.json.",
+ "C03": " Bounds obligations the compiler leaves open go through a relational bounds prover (D10) before the ledger; ledger entries may require slots of the current wire schema (schema_slots).",
+ "C04": " Also: DHCPv4 wire-enum constants equal spec/constants.json.",
+ "C05": " Also: wire-enum constants equal spec/constants.json; the 255-octet cap of the label decoder is a test on the length of the name being assembled.",
+ "C06": " Also: length-field narrowing (C06-K5): every uintN(len(x)) written as a length is the length of raw field bytes or of a nested encoding whose encoder closure does not pad. One site violates it on the pinned tree and is a KNOWN FINDING (F9: (dhcpv6.Options).ToBytes, demonstrated in findings/F9-C06-length-overflow, not repairable without an API change).",
+ "C07": " Also: DHCPv4 wire-enum constants equal spec/constants.json.",
+ "C08": " Also: no decoder makes memory reachable from a package-level variable part of the value it produces (decoded messages share nothing with each other).",
+ "C09": " The repeated-ToBytes rule is interprocedural (helpers of the module are expanded at their call sites).",
+ "C10": " Also: slice-typed Client state is never returned, stored or sent (accessors hand out copies); cancel pairing on every exit of send/SendAndRead (shared with C11). Filter rules are evaluated on the split graph, so nested ifs, && chains and switch cases are judged alike.",
+ "C11": " Also: only the internal per-try deadline sentinel leads to another try; every other result of a try, including the context's error, is returned at once (shared with C12).",
+ "C12": " Also: no path from the deadline edge to the next try avoids the doubling; every in-repo Logger.PrintMessage implementation writes nothing reachable from the message it prints (E3).",
+ "C13": " Also: the receive loops deliver messages that do not alias the per-datagram read buffer and decoded option values are exactly the bytes consumed for their code (shared with C10/C01); message-type constants equal spec/constants.json.",
+ "C14": " Also: the decoder called per datagram returns a value sharing no memory with package-level variables.",
+ "C15": " Also: decoded option values are append(previous value, consumed chunk) — a zero-length option stays nil, which 'copied when present' depends on; message-type constants equal spec/constants.json.",
+ "C16": " Also: DHCPv6 message-type constants equal spec/constants.json.",
+ "C17": " Also: string accessors return the decoded string or strings.TrimRight(s, NUL) of it; DHCPv4 option-code constants equal spec/constants.json.",
+ "C18": " Also (K8): no 16-bit addition or subtraction has a checksum-derived operand outside the two summation routines (a plain add drops the end-around carry). isValid and the reader guards are judged on the split graph.",
+ "C20": " Also: the clients' in-repo Logger.PrintMessage implementations write nothing reachable from the message they print.",
+}
+
 NA_REASON = {}
 
 def main():
@@ -109,6 +133,7 @@ def main():
         pid = p["id"]
         if pid in CLAIMED:
             tech, text, note, ref = CLAIMED[pid]
+            text = text + ADDENDA.get(pid, "")
             checks.append({
                 "property_id": pid,
                 "quick_cmd": f"./check.sh {pid} quick",
@@ -128,7 +153,7 @@ def main():
         "hooks": {
             "guard": "verif",
             "enable": "no hooks: the analyser reads /repo's sources; nothing is compiled into the library",
-            "baseline_off_cmd": "cd /repo && GOFLAGS=-mod=mod GOPROXY=off GOSUMDB=off go test -vet=off -count=1 ./...",
+            "baseline_off_cmd": "cd /repo && GOFLAGS=-mod=mod GOPROXY=off GOSUMDB=off GOTOOLCHAIN=local go test -vet=off -count=1 ./...",
             "source_commits": [],
             "add_only": True,
         },
